@@ -367,6 +367,7 @@ func (c08) Run(cs any) core.Result {
 	c := cs.(c08Case)
 	var res core.Result
 	var ts []c08Term
+	var ks []ast.Constant
 	depth := 0
 	for _, it := range c.Items {
 		k, err := it.build()
@@ -377,11 +378,30 @@ func (c08) Run(cs any) core.Result {
 		if d := it.V.Depth(); d > depth {
 			depth = d
 		}
+		ks = append(ks, k)
 		if c.Atom {
 			a := ast.NewAtom("p", k, ast.TrueConstant)
 			ts = append(ts, c08Term{a, a.Hash(), a.String(), canon.Atom(a), fmt.Sprintf("atom p(%s) via %s", canon.Const(k), it.Route)})
 		} else {
 			ts = append(ts, c08Term{k, k.Hash(), k.String(), canon.Const(k), fmt.Sprintf("%s via %s", canon.Const(k), it.Route)})
+		}
+	}
+	// constants of different shapes built over the very same argument objects (a pair and a list cell, a map and a
+	// struct): sharing structure must not make them equal
+	if len(ks) >= 2 {
+		h, t, m := ks[0], ks[1], ks[1]
+		if t.Type != ast.ListShape {
+			t = ast.ListNil
+		}
+		label, _ := ast.Name("/shared")
+		shared := []ast.Constant{ast.Pair(&h, &t), ast.ListCons(&h, &t), ast.MapCons(&label, &m, &ast.MapNil), ast.StructCons(&label, &m, &ast.StructNil)}
+		for _, k := range shared {
+			if c.Atom {
+				a := ast.NewAtom("p", k, ast.TrueConstant)
+				ts = append(ts, c08Term{a, a.Hash(), a.String(), canon.Atom(a), fmt.Sprintf("atom p(%s) sharing its arguments", canon.Const(k))})
+			} else {
+				ts = append(ts, c08Term{k, k.Hash(), k.String(), canon.Const(k), fmt.Sprintf("%s sharing its arguments", canon.Const(k))})
+			}
 		}
 	}
 	key := c.Mode
